@@ -140,6 +140,7 @@ theorem sys_d2h_complete_bytes_observed (c : SysCfg) (hinj : PtInj c.pt) (ops : 
       ∀ i, i < cmd.len → ∃ pa, translate c.pt (cmd.addr + i) = some pa ∧
         ∃ (k : Nat) (u : MemTx) (rq : MqReq) (p : Piece), s.hist[k]? = some (.tx u) ∧ u.write = false ∧
           s.reqOfDma u.owner = some rq ∧ s.pieceOf rq = some p ∧ p.cmd = cmd ∧ p.seq = seq ∧
+          u.addr ≤ pa ∧ pa < u.addr + u.len ∧
           (s.d2hResult q seq cmd.len)[i]? = some ((histMem (s.hist.take k)).get pa) := by
   intro s q seq cmd hcomp hc hkind i hi
   have h := reachSys_all c ops
@@ -222,24 +223,24 @@ theorem sys_d2h_complete_bytes_observed (c : SysCfg) (hinj : PtInj c.pt) (ops : 
     rw [← c4, ← c3] at c2
     rw [← b6, hkq, ← b7, hks] at c2
     exact Option.some.inj (c2.symm.trans hc)
-  refine ⟨k, u, rq2, p2, b1, b2, b4, b5, hcmd, by rw [← b7, hks], ?_⟩
-  have hres : (s.d2hResult q seq cmd.len)[i]? = some e.2.2.2 := by
-    unfold Sys.d2hResult
-    rw [List.getElem?_map, List.getElem?_range hi]
-    simp only [Option.map_some, hfe]
-  rw [hres]; congr 1
   -- the byte was read at `u.addr + j`, the image of `addr + i`
   have hrd := h.hist.reads k u b1 b2
   rw [hrd] at b3
   obtain ⟨hjl, hx⟩ := SMem.read_getElem? _ _ _ _ _ b3
-  rw [hx]; congr 1
-  have := x.tr ((u.addr - p2.pa) + j) (by have := x.hi; have := x.lo; omega)
-  rw [h.pt, hcmd] at this
-  have e1 : cmd.addr + p2.off + ((u.addr - p2.pa) + j) = cmd.addr + i := by rw [← hki, b8]; omega
-  rw [e1, htr] at this
-  have := Option.some.inj this
-  have := x.lo
-  omega
+  have hpa : u.addr + j = pc.1 + (i - pc.2.1) := by
+    have := x.tr ((u.addr - p2.pa) + j) (by have := x.hi; have := x.lo; omega)
+    rw [h.pt, hcmd] at this
+    have e1 : cmd.addr + p2.off + ((u.addr - p2.pa) + j) = cmd.addr + i := by rw [← hki, b8]; omega
+    rw [e1, htr] at this
+    have := Option.some.inj this
+    have := x.lo
+    omega
+  refine ⟨k, u, rq2, p2, b1, b2, b4, b5, hcmd, by rw [← b7, hks], by omega, by omega, ?_⟩
+  have hres : (s.d2hResult q seq cmd.len)[i]? = some e.2.2.2 := by
+    unfold Sys.d2hResult
+    rw [List.getElem?_map, List.getElem?_range hi]
+    simp only [Option.map_some, hfe]
+  rw [hres, hx, hpa]
 
 /-- during the whole history of `s`, the only events that write into the physical image of
     `[addr, addr + len)` are memory transactions of the copy command `(q1, seq1)` -/
@@ -284,7 +285,7 @@ theorem sys_h2d_then_d2h_roundtrip (c : SysCfg) (hinj : PtInj c.pt) (ops1 ops2 :
   intro i
   by_cases hi : i < cmd1.len
   · -- byte `i`
-    obtain ⟨pa, htr, k, u, rq, p, b1, b2, b3, b4, b5, b6, hres⟩ :=
+    obtain ⟨pa, htr, k, u, rq, p, b1, b2, b3, b4, b5, b6, _, _, hres⟩ :=
       sys_d2h_complete_bytes_observed c hinj (ops1 ++ ops2) q2 seq2 cmd2 hc2 hcmd2 hk2 i (hlen ▸ hi)
     rw [haddr] at htr
     rw [hres, List.getElem?_eq_getElem (by rw [hdl]; exact hi)]
@@ -358,5 +359,48 @@ theorem sys_h2d_then_d2h_roundtrip (c : SysCfg) (hinj : PtInj c.pt) (ops1 ops2 :
       rw [if_pos ⟨htw, hlo, by rw [htl]; exact hhi⟩]; rfl
   · have hl1 : (s.d2hResult q2 seq2 cmd2.len).length = cmd2.len := by simp [Sys.d2hResult]
     rw [List.getElem?_eq_none (by rw [hl1, hlen]; omega), List.getElem?_eq_none (by rw [hdl]; omega)]
+
+/-- after the demo's H2D copy (`demoSysOps`): a D2H copy of the same 40 bytes, driven to completion -/
+def demoBackOps : List SysOp :=
+  [.enq 0 false 4140 40 0, .drvTick, .drvTick, .toCp, .cpTick, .cacheTake 1, .cacheAck 0, .cpTick, .toDrv,
+   .drvTick, .drvTick, .toCp, .toCp, .cpTick, .cpTick, .toDma, .toDma, .dmaTick, .dmaTick, .dmaTick, .dmaTick, .dmaTick,
+   .memTake 9, .memDo 2, .memDo 0, .memDo 1, .memDo 0, .dmaTick, .dmaTick, .dmaTick, .dmaTick, .dmaTick, .dmaTick,
+   .dmaOut, .toCpRsp, .toCpRsp, .cpTick, .cpTick, .toDrv, .toDrv, .drvTick, .drvTick]
+
+/-- non-vacuity of the byte-level theorems and of the round trip: both copies complete, every write
+    the memory performed is a write of the first copy, the read transactions of the second copy are
+    served out of order, and the host buffer of the second copy holds the 40 bytes of the first;
+    the second copy did not exist when the first had completed -/
+example :
+    (reachSys demoSysCfg (demoSysOps ++ demoBackOps)).mq.s.completed = [(0, 0), (0, 1)] ∧
+    (reachSys demoSysCfg demoSysOps).cmdOf 0 1 = none ∧
+    ((reachSys demoSysCfg (demoSysOps ++ demoBackOps)).cmdOf 0 0).map (fun c => (c.kind, c.addr, c.len)) =
+      some (.h2d, 4140, 40) ∧
+    ((reachSys demoSysCfg (demoSysOps ++ demoBackOps)).cmdOf 0 1).map (fun c => (c.kind, c.addr, c.len)) =
+      some (.d2h, 4140, 40) ∧
+    (reachSys demoSysCfg (demoSysOps ++ demoBackOps)).d2hResult 0 1 40 = (List.range 40).map (h2dByte 4143) ∧
+    (reachSys demoSysCfg (demoSysOps ++ demoBackOps)).mlog.map (fun t => (t.write, t.owner, t.addr, t.len)) =
+      [(true, 1, 131088, 4), (true, 0, 65580, 4), (true, 1, 131072, 16), (true, 0, 65584, 16),
+       (false, 3, 131072, 16), (false, 2, 65580, 4), (false, 3, 131088, 4), (false, 2, 65584, 16)] := by
+  decide +kernel
+
+/-- the demo configuration with two queues -/
+def demoSysCfgQ2 : SysCfg := { demoSysCfg with nQueues := 2 }
+
+/-- **The `OnlyWriter` hypothesis of the round trip cannot be dropped**: if another queue copies
+    different data to the same range between the two copies, the second copy returns THAT data — all
+    other hypotheses hold (the first copy had completed before the D2H was enqueued, the D2H completes).
+    Two queues writing one range concurrently is a race of the application, not of the copy path. -/
+theorem sys_roundtrip_needs_only_writer :
+    let ops1 := demoSysOps ++ (SysOp.enq 1 true 4140 40 9 :: demoSysOps.tail)
+    let s1 := reachSys demoSysCfgQ2 ops1
+    let s := reachSys demoSysCfgQ2 (ops1 ++ demoBackOps)
+    (0, 0) ∈ s1.mq.s.completed ∧ (s1.cmdOf 0 0).map (fun c => (c.kind, c.addr, c.len)) = some (.h2d, 4140, 40) ∧
+    s1.cmdOf 0 1 = none ∧ (s.cmdOf 0 1).map (fun c => (c.kind, c.addr, c.len)) = some (.d2h, 4140, 40) ∧
+    (0, 1) ∈ s.mq.s.completed ∧
+    s.d2hResult 0 1 40 = (List.range 40).map (h2dByte 4149) ∧
+    (s1.cmdOf 0 0).map (·.data) = some ((List.range 40).map (h2dByte 4143)) ∧
+    (List.range 40).map (h2dByte 4149) ≠ (List.range 40).map (h2dByte 4143) := by
+  decide +kernel
 
 end C11
